@@ -72,6 +72,8 @@ def check(ctx: Ctx) -> None:
     M = ctx.model
     ctx.assume('noise variance, pe and the powers P are validated non-negative (setters assert it); a covariance passed '
                'in as N0_or_Rek/Rek is PSD by contract; np.dot/@ and the repo spellings of the adjoint are recognised')
+    from ..units import check_units
+    check_units(ctx, 'C11.e', [MU, IA, ALG], floor=2)
     # ------------------------------------------------------------------ C11.a
     ctx.rule('C11.a', 'IA-side covariance/SINR code reads full_F / full_W_H / _get_channel only', floor=8)
     funcs = [M.func(IA, q) for q in IA_FUNCS] + [M.func(ALG, 'AlternatingMinIASolver.get_cost')]
@@ -590,6 +592,8 @@ def synthetic():
 
 
 MUTANTS = [
+    Mutant('capacity-from-the-dB-sinr', IA, 'IASolverBaseClass.calc_sum_capacity',
+           [('replace', 'self.calc_SINR()', 'self.calc_SINR_in_dB()')], r'C11\.[be]:IASolverBaseClass\.calc_sum_capacity'),
     Mutant('ia-first-part-reads-F', IA, 'IASolverBaseClass._calc_Bkl_cov_matrix_first_part',
            [('replace', 'Vj = self.full_F[j]', 'Vj = self.F[j]')], r'C11\.[ab]:IASolverBaseClass\._calc_Bkl_cov_matrix_first_part'),
     Mutant('ia-sinr-reads-W_H', IA, 'IASolverBaseClass._calc_SINR_k',
